@@ -51,7 +51,7 @@ def status_own(ctx: Ctx, rule="R-C20-STATUS-OWN") -> None:
         elif fn.qualname == f"{HCS}.health_status.setter":
             ctx.check(v == "new_health_status" and dotted(t) == "self._health_status", rule, fn, "setter stores its argument", "plain setter", f"the status setter stores {v}", node=n,
                       instance="status setter")
-        elif fn.qualname == f"{C.RUNNER}.run_one_queue":
+        elif fn.qualname == f"{C.RUNNER}.run_one_queue" or fn in C.helper_callees(ctx, ctx.func(f"{C.RUNNER}.run_one_queue")):
             n_unhealthy += 1
             ctx.check(v.endswith("HealthCheckStatus.UNHEALTHY"), rule, fn, "run_one_queue stores UNHEALTHY", "only ever degrades", f"run_one_queue stores {v}", node=n,
                       instance="run_one_queue value")
@@ -61,7 +61,7 @@ def status_own(ctx: Ctx, rule="R-C20-STATUS-OWN") -> None:
     ctx.check(n_unhealthy == 1, rule, f"{C.RUNNER}.run_one_queue", "one UNHEALTHY store", "found", f"run_one_queue has {n_unhealthy} stores of the health status (a failed consumer must be reported)",
               instance="unhealthy store exists")
     f = ctx.func(f"{C.RUNNER}.run_one_queue")
-    g = ctx.cfg(f)
+    g = flow.inline(f, ctx.res, 2, lambda n, cal: cal.cls is not None and cal.cls.qualname == C.RUNNER and cal in C.helper_callees(ctx, f))
     st = [s for s in g.nodes if s.kind == "store" and (s.target or "").endswith("health_status")]
 
     def env(failed: bool):
@@ -75,6 +75,8 @@ def status_own(ctx: Ctx, rule="R-C20-STATUS-OWN") -> None:
                 if isinstance(l, ast.Call) and isinstance(l.func, ast.Attribute) and l.func.attr == "exception":
                     return not failed
                 if isinstance(l, ast.Name) and any(isinstance(d, ast.Call) and isinstance(d.func, ast.Attribute) and d.func.attr == "exception" for d in C.local_defs(f, l.id)):
+                    return not failed
+                if isinstance(l, ast.Name) and l.id in ("exc", "exception", "error"):
                     return not failed
                 if _mentions(l, "_health_check_server"):
                     return False
